@@ -2,6 +2,7 @@ import Hgxv.Model.Wire
 import Hgxv.Model.C06
 import Hgxv.Model.C06Hif
 import Hgxv.Model.C06Text
+import Hgxv.Model.C06Str
 /-! Line protocol for C06.  State: the current content (any of the four types) and a record list.
   metadata   `-` | `k=v,...`   k: w t l u<n>   v: p<n> (pool token) q<int> (weight quanta) t<n> l<n>
   node list  `1.2.3` | `_`     directed interaction `1.2>3`
@@ -16,7 +17,11 @@ import Hgxv.Model.C06Text
   `frame L`   L = top-level pieces of a text file, one letter each: o `[`  s `,`  i one value  c `]`  (x = anything else)
               -> `k;e`  k = number of records `readText` returns (the i-th value carries the number i) or `rej`,
                         e = 1 iff L is letter by letter what `writeText` writes for k records (0 when rej); beyond
-                        2000 records the comparison uses `framed` (= `writeText` by `C06_text_framing`) -/
+                        2000 records the comparison uses `framed` (= `writeText` by `C06_text_framing`)
+  `str_enc cps`   cps = code points `1,2,3` | `-`   -> `units;back`  units = the string literal `json.dump` writes
+              (ensure_ascii), back = what the reader makes of it again (code points) or rej
+  `str_raw cps`   -> the literal of the `ensure_ascii=False` variant
+  `str_dec units` -> code points the reader makes of the literal `units` | rej -/
 open Wire C06
 
 def parseKey (s : String) : Option Key :=
@@ -162,8 +167,20 @@ def frameAnswer (l : String) : String :=
       let same := if rs.length ≤ 2000 then decide (writeText rs = ps) else decide (framed rs = ps)
       toString rs.length ++ ";" ++ showBool same
 
+def strAnswer (f : List Nat → String) (a : String) : String :=
+  match nats? a with
+  | some l => f l
+  | none => "bad-op"
+
+def showDec : Option (List Nat) → String
+  | some t => showNats t
+  | none => "rej"
+
 def step (s : St) : List String → St × String
   | ["frame", l] => (s, frameAnswer l)
+  | ["str_enc", a] => (s, strAnswer (fun l => showNats (Str.encode l) ++ ";" ++ showDec (Str.decode (Str.encode l))) a)
+  | ["str_raw", a] => (s, strAnswer (fun l => showNats (Str.encodeRaw l)) a)
+  | ["str_dec", a] => (s, strAnswer (fun l => showDec (Str.decode l)) a)
   | ["begin", t, w] =>
     match parseType t with
     | some ty => ({ s with cur := emptyOf ty (w = "1") false }, "ok")
